@@ -13,7 +13,13 @@ script = {
               both       - sync process_X next to coroutine process_X_async ("*_async postfix", middleware.rst)
               async_only - only process_X_async exists (invisible to a WSGI app)
   'hooks_class':  [[kind, id], ...]   outermost decorator first; kind in 'before' | 'after'
-  'hooks_method': [[kind, id], ...]   outermost decorator first (all inside the class-level ones)
+  'hooks_method': [[kind, id], ...]   outermost decorator first (all inside the class-level ones); on on_get only
+  'inherit':      [responder name, ...]  responders (of 'on_get' 'on_get_f' 'on_get_items') that the routed
+                                      resource class INHERITS from a base class instead of defining itself
+  'hooks_base':   [[kind, id], ...]   class-level hooks applied to that base class (outermost first)
+            hooks.rst: a hook applied to a resource class applies to *all* responders of the class - inherited
+            ones included.  So for a responder the order is: hooks_class (of the routed class), then - if the
+            responder lives on the base class - hooks_base, then hooks_method (on_get), then the responder.
 }
 case = {
   'stack': 'wsgi' | 'asgi',
@@ -74,10 +80,21 @@ def site_codes(script):
     sites = []
     for i in range(len(script['comps'])):
         sites += ['M%d.req' % i, 'M%d.rsrc' % i, 'M%d.resp' % i]
-    for kind, hid in list(script.get('hooks_class', ())) + list(script.get('hooks_method', ())):
+    for kind, hid in (list(script.get('hooks_class', ())) + list(script.get('hooks_base', ())) +
+                      list(script.get('hooks_method', ()))):
         sites.append(('B%d' if kind == 'before' else 'A%d') % hid)
     sites += ['R', 'S']
     return {s: n for n, s in enumerate(sites)}
+
+
+def responder_hooks(script, responder):
+    """Hook stack (outermost first) in front of a responder of the routed resource class."""
+    hooks = list(script.get('hooks_class', ()))
+    if responder in script.get('inherit', ()):
+        hooks += list(script.get('hooks_base', ()))
+    if responder == 'on_get':
+        hooks += list(script.get('hooks_method', ()))
+    return hooks
 
 
 def error_status(codes, site):
@@ -179,9 +196,17 @@ class _Interp:
         if routed and not self.complete and not self.raised:
             self.classes.add('responder.' + responder)
             if responder in ('on_get', 'on_get_f', 'on_get_items'):
-                hooks = list(script.get('hooks_class', ()))
-                if responder == 'on_get':
-                    hooks += list(script.get('hooks_method', ()))
+                hooks = responder_hooks(script, responder)
+                if responder in script.get('inherit', ()):
+                    for kind, _ in script.get('hooks_class', ()):
+                        self.classes.add('inherit.class_' + kind)
+                    if script.get('hooks_base'):
+                        self.classes.add('inherit.base_hook')
+                    ck = [k for k, _ in script.get('hooks_class', ())]
+                    if ck and ck[-1] == 'after':
+                        self.classes.add('inherit.class_after_innermost')
+                elif script.get('hooks_class'):
+                    self.classes.add('own.class_hook')
                 self.responder_stack(hooks, 0, responder, rtag, dict(fields))
             elif responder == 'sink':
                 self.call('S', ('S', tuple(fields)))
